@@ -1,15 +1,23 @@
 """C09 - lifo subscriptions put events at the front of an active object's queue."""
 from . import fabric_targets as FT
+from . import queue_targets as Q
 
 LEVEL = 'proof'
 TAGS = ('C09',)
-TRUSTED = ['queue.PriorityQueue.get contract', 'list / dict contracts']
+TRUSTED = ['queue.PriorityQueue.get contract', 'list / dict contracts', 'collections.deque / queue.Queue contracts']
 ASSUMPTIONS = ['ActiveObject._subscribe passes its own queue and the requested kind to the fabric (proved under C07)']
 EXPLANATION = ('One iteration of thread_runner_lifo / thread_runner_fifo of the real source: every delivery made for a '
-               'lifo subscription must be an appendleft (what post_lifo does), every fifo delivery an append.')
+               'lifo subscription must be an appendleft (what post_lifo does), every fifo delivery an append.  What '
+               'these two calls do to the pending events (new event at the front / at the back, the others in order) is '
+               'the contract of LockingDeque.appendleft / append, verified here against the real bodies (targets of C16) '
+               'and of post_lifo / post_fifo on an active object.')
 MIN_OBLIGATIONS = 2
 
 
 def build(src, tier):
     w = FT.world_for(src, tier)
-    return [(w, [FT.t_runner_iteration('fifo'), FT.t_runner_iteration('lifo')])]
+    from . import C16
+    wq = Q.world_for(src, tier)
+    return [(w, [FT.t_runner_iteration('fifo'), FT.t_runner_iteration('lifo')]),
+            (wq, [C16.t_ld_put('fifo'), C16.t_ld_put('lifo'), Q.t_post('ActiveObject', 'fifo', ('C09',)),
+                  Q.t_post('ActiveObject', 'lifo', ('C09',))])]
